@@ -143,14 +143,14 @@ def extract_service_tabulation_data(services: List[DiagService],
     table.add_column("Name", style="green")
     table.add_column("Semantic", justify="left", style="white")
     table.add_column("Request", justify="left", style="white")
-    if additional_columns is not None:
-        for ac_title, _ in additional_columns:
-            table.add_column(ac_title, justify="left", style="white")
+    if additional_columns is None:
+        additional_columns = []
+    for ac_title, _ in additional_columns:
+        table.add_column(ac_title, justify="left", style="white")
 
-        rows = zip(name_column, semantic_column, request_column,
-                   *[ac[1] for ac in additional_columns])
-        for row in rows:
-            table.add_row(*map(str, row))
+    rows = zip(name_column, semantic_column, request_column, *[ac[1] for ac in additional_columns])
+    for row in rows:
+        table.add_row(*map(str, row))
 
     return table
 
